@@ -64,7 +64,7 @@ func mkBlocks() [maxHeight + 1]*chain.ExecutedBlock {
 	return blocks
 }
 
-var windows = []uint64{1, 2, 3}
+var windows = []uint64{1, 2, 3, 5}
 
 type opKind int
 
@@ -95,7 +95,7 @@ var scratch string
 
 func exec(h []int) (res seqx.Result) {
 	if len(h) == 0 {
-		return seqx.Result{Key: "root", Enabled: []int{0, 1, 2}}
+		return seqx.Result{Key: "root", Enabled: []int{0, 1, 2, 3}}
 	}
 	window := windows[h[0]]
 	blocks := mkBlocks()
@@ -274,6 +274,6 @@ func main() {
 	r.Cov["frontier_unexpanded_at_bound"] = st.Frontier
 	r.Cov["bounds"] = map[string]any{"depth_incl_window_choice": depth, "windows": windows, "ops": len(opNames), "max_height": maxHeight}
 	r.Cov["explanation"] = "every transition runs the real Indexer on pebble in a fresh scratch directory with the history replayed; state key = window + private caches + heights on disk; after every step all queries for all heights and all transactions are compared with the reference"
-	r.Assumptions = []string{"accepted blocks are delivered in ascending order; redelivery repeats the latest block or the latest two in ascending order (at-least-once delivery after a crash)", "heights <= 9, windows 1..3, 0-2 transactions per block"}
+	r.Assumptions = []string{"accepted blocks are delivered in ascending order; redelivery repeats the latest block or the latest two in ascending order (at-least-once delivery after a crash)", "heights <= 9, windows {1,2,3,5} (5 > the first heights, so gaps below the window occur), 0-2 transactions per block"}
 	r.Finish()
 }
